@@ -9,6 +9,7 @@ harness/ledger/store/trackerdb/zz_verif_c15_test.go, harness/ledger/ledgercore/z
   res   <isAsset> <isApp> <addr32> <cidx> <updateRound> <enc>            → leaf | err
   kv    <key> <value>                                                    → leaf
   boxkv <app> <name> <value>                                             → <key> <leaf>
+  sw    <acct|asset|app|kv> <seed> <len> <mut|->                          → leaf     (length sweep, see `sweepInput`)
   label <ver> <round> <blockHash> <root> <totals> <spver> <oa> <orp>     → <buffer> <label>
 
 Bytes in hex, `_` = empty.  The model is run with H = SHA-512/256 (AlgoVerif.Base.Sha512), so leaves,
@@ -40,6 +41,22 @@ def H : Bytes → Bytes := AlgoVerif.Sha.sha512_256
 
 def bit (s : String) : Option Bool := if s = "1" then some true else if s = "0" then some false else none
 
+/-- expansion of a sweep op (same as verifC15SweepInput in the Go harness): addr[j] = seed*7+13j+1,
+cidx = seed*65536+len, updateRound = seed%1000+1, enc[i] = seed + 131 i + 17 (i/256) (mod 256); byte `mut`
+xor 0x5a. -/
+def sweepInput (seed n : Nat) (mpos : Option Nat) : Bytes × Nat × Nat × Bytes :=
+  let addr := (List.range 32).map fun j => UInt8.ofNat ((seed * 7 + j * 13 + 1) % 256)
+  let enc := (List.range n).map fun i =>
+    let b := UInt8.ofNat ((seed + 131 * i + 17 * (i / 256)) % 256)
+    if mpos = some i then b ^^^ 0x5a else b
+  (addr, seed * 65536 + n, seed % 1000 + 1, enc)
+
+def swMut (s : String) (n : Nat) : Option (Option Nat) :=
+  if s = "-" then some none else
+  match s.toNat? with
+  | some m => if m < n then some (some m) else none
+  | none => none
+
 def handle (line : String) : String :=
   match fields line with
   | ["acct", a, ur, rb, e] =>
@@ -59,6 +76,22 @@ def handle (line : String) : String :=
   | ["kv", k, v] =>
     match unhex k, unhex v with
     | some k, some v => hexOf (kvLeaf H k v)
+    | _, _ => "bad-op"
+  | ["sw", kind, seed, n, mp] =>
+    match seed.toNat?, n.toNat? with
+    | some seed, some n =>
+      if seed < 2 ^ 31 ∧ n ≤ 2 ^ 20 then
+        match swMut mp n with
+        | some m =>
+          let (addr, cidx, ur, enc) := sweepInput seed n m
+          match kind with
+          | "acct" => hexOf (accountLeaf H addr ur 0 enc)
+          | "asset" => hexOf (resourceLeafK H .asset addr cidx ur enc)
+          | "app" => hexOf (resourceLeafK H .app addr cidx ur enc)
+          | "kv" => hexOf (kvLeaf H (boxKey seed [115, 119, 112, 33]) enc)
+          | _ => "bad-op"
+        | none => "bad-op"
+      else "bad-op"
     | _, _ => "bad-op"
   | ["boxkv", app, n, v] =>
     match app.toNat?, unhex n, unhex v with
